@@ -186,6 +186,29 @@ Definition stream_prop (chain : feed) (possible : list N) (m : str -> bool)
                        negb (existsb (fun y => (w <=? y) && (y <? d)) ns))
              (b :: start :: stop :: wl ++ ms)) deliv.
 
+(* Y1 (W1 C15 'tightness'): second clause next to [stream_prop] (which Cxx_Audit2 speaks about).  "In bundles the index
+   covers OTHER THAN THE LAST AVAILABLE ONES, nothing besides these is delivered": [stream_prop] demands it for bundles
+   with b + bundle < u only, i.e. it exempts the last bundle the INDEX covers (b = u - bundle) whether or not that bundle
+   is one of the last available bundle FILES.  Here the exemption is cut down to what the sentence says: the last covered
+   bundle is exempt only when the bundle file after it (base u, the first one the index does not cover) does not exist;
+   when file u exists, bundle u - bundle is not a last available one and must hold nothing but the wanted blocks.  Same
+   'wanted' / 'next existing block' test as in [stream_prop]; [u] is computed in the same way. *)
+Definition stream_tight_y1 (chain : feed) (possible : list N) (m : str -> bool)
+           (bundle start stop : N) (wl : list N) (progress : bool)
+           (names : list (N * N)) (deliv : list N) : bool :=
+  let ns := nums chain in
+  let ms := matching_nums m chain in
+  let b0 := low_boundary start bundle in
+  let hi := maxl (map (fun o => fst o + snd o) names) in
+  let u := first_uncovered (S (N.to_nat (hi / bundle))) possible names bundle b0 in
+  let wanted (w : N) := memN w ms || (w =? start) || (negb (stop =? 0) && (w =? stop)) || memN w wl in
+  forallb (fun d =>
+     let b := low_boundary d bundle in
+     negb ((b + bundle =? u) && bundle_exists chain bundle u) ||
+     existsb (fun w => (b <=? w) && (w <=? d) && (wanted w || (progress && (w =? b))) &&
+                       negb (existsb (fun y => (w <=? y) && (y <? d)) ns))
+             (b :: start :: stop :: wl ++ ms)) deliv.
+
 (* ---------------- verdicts ---------------- *)
 Definition c15_verdict (k : c15_case) : N :=
   match k with
@@ -217,7 +240,8 @@ Definition c15_verdict (k : c15_case) : N :=
                   listN_eqb d o_deliv && (ec =? o_end) && (ew =? o_wait) in
       let valid := valid_common fsb chain ixs && negb (bundle =? 0) && ((stop =? 0) || (start <=? stop)) in
       let p := negb valid ||
-               stream_prop chain possible m bundle start stop wl progress o_files o_deliv o_end o_wait in
+               (stream_prop chain possible m bundle start stop wl progress o_files o_deliv o_end o_wait &&
+                stream_tight_y1 chain possible m bundle start stop wl progress o_files o_deliv) in
       (if corr then 0 else 1) + (if p then 0 else 2)
   end.
 
